@@ -29,9 +29,10 @@ TAGS = {
     14: 'Workflow(builder) does not have exactly the builder\'s tasks (in order) and edges',
     15: 'as_dask_dict lists predecessor keys in an order different from the node order',
     16: 'another scheduler (synchronous / 1 worker / 8 workers) gives a different result or number of calls',
+    17: 'as_dask_dict does not have one distinct key per task (with exactly the output task under results)',
 }
 CORR = (1, 2, 3, 4, 5, 6, 7, 8)
-ORACLE = (11, 12, 13, 14, 15, 16)
+ORACLE = (11, 12, 13, 14, 15, 16, 17)
 # guard tag -> finding id: an oracle failure (11/12) is excused only when the faithful model explains it (no
 # correspondence tag), the guard conjunct is false on that input and the finding is listed open
 GUARD_FINDING = {201: 'C17-STATIC-KEY', 202: 'C17-STATIC-CALLABLE-TUPLE'}
@@ -123,9 +124,57 @@ def gen_layered(rng, p_unsafe=0.08, p_ctx=0.3):
     return {'fns': gen_fns(rng, nf, p_ctx), 'tasks': gen_tasks(rng, nt, nf, p_unsafe), 'nb': max(nb, 1), 'ops': ops}
 
 
+def make_twins(rng, tasks, k):
+    """k times: make task j a twin of task i: a DISTINCT task object with the same name, function and static inputs."""
+    n = len(tasks)
+    for _ in range(k):
+        if n < 3:
+            return
+        i, j = rng.sample(range(n - 1), 2)
+        tasks[j] = {'fn': tasks[i]['fn'], 'inputs': list(tasks[i]['inputs']), 'name': tasks[i].get('name', f't{i}')}
+
+
+def gen_twins(rng, p_ctx=0.3):
+    """a -> fit('foce'), b -> fit('foce'), both -> summary: distinct tasks equal in (name, function, static input),
+    with different / identical / no predecessors."""
+    k = rng.choice([2, 2, 3])
+    nsrc = rng.choice([0, 1, 2, k])
+    nf = nsrc + 2
+    fns = gen_fns(rng, nf, p_ctx)
+    tasks = [{'fn': s + 1, 'inputs': rng.choice([[], [{'i': s}]])} for s in range(nsrc)]
+    twin = {'fn': nsrc + 1, 'inputs': rng.choice([[{'s': 'foce'}], [], [{'s': 'foce'}, {'i': 3}]]), 'name': 'fit'}
+    first = len(tasks)
+    tasks += [dict(twin, inputs=list(twin['inputs'])) for _ in range(k)]
+    tasks.append({'fn': nsrc + 2, 'inputs': []})
+    ops = [['add', 0, s, []] for s in range(nsrc)]
+    mode = rng.choice(['different', 'same', 'mixed'])
+    for x in range(k):
+        if nsrc == 0:
+            ps = []
+        elif mode == 'same':
+            ps = [0]
+        elif mode == 'different':
+            ps = [x % nsrc]
+        else:
+            ps = rng.sample(range(nsrc), rng.randint(0, nsrc))
+        ops.append(['add', 0, first + x, ps])
+    if rng.random() < 0.3:
+        ops.append(['copy', 0])
+    sink = len(tasks) - 1
+    ops.append(rng.choice([['sink', 0, sink], ['add', 0, sink, [first + x for x in range(k)]],
+                           ['add', 0, sink, [first + x for x in reversed(range(k))]]]))
+    return {'fns': fns, 'tasks': tasks, 'nb': 1, 'ops': ops}
+
+
 def gen_spec(rng, max_tasks=12, p_unsafe=0.08, p_ctx=0.3, p_cycle=0.01, p_nosink=0.08):
-    if rng.random() < 0.25:
-        return gen_layered(rng, p_unsafe, p_ctx)
+    r0 = rng.random()
+    if r0 < 0.08:
+        return gen_twins(rng, p_ctx)
+    if r0 < 0.30:
+        spec = gen_layered(rng, p_unsafe, p_ctx)
+        if rng.random() < 0.25:
+            make_twins(rng, spec['tasks'], rng.choice([1, 2]))
+        return spec
     nt = rng.choice([1, 2, 3, 3, 4, 4, 5, 5, 6, 6, 7, 8, 9, 10, 11, 12])
     nt = min(nt, max_tasks)
     nf = max(2, nt if rng.random() < 0.7 else rng.randint(2, max(2, nt)))
@@ -209,6 +258,8 @@ def gen_spec(rng, max_tasks=12, p_unsafe=0.08, p_ctx=0.3, p_cycle=0.01, p_nosink
         ops.append(['sink', 0, nt - 1])
     else:
         ops.append(['add', 0, nt - 1, pick_preds(0, nt - 1)])
+    if rng.random() < 0.2:
+        make_twins(rng, tasks, rng.choice([1, 1, 2]))
     return {'fns': fns, 'tasks': tasks, 'nb': nb, 'ops': ops}
 
 
@@ -254,39 +305,57 @@ class Marker:
         self.j = j
 
 
+_LOGS = {}          # family id -> (lock, call log); kept out of the function objects so that these stay picklable
+_FAM_IDS = iter(range(1, 10 ** 9))
+
+
+class FamFn:
+    """A family function: module-level class, picklable state (family id, index), deterministic under
+    dask.base.tokenize - like the module-level functions pharmpy tools put into tasks."""
+    def __init__(self, fam_id, j):
+        self.fam_id = fam_id
+        self.j = j
+        self.__name__ = f'fam{j}'
+
+    def _log(self, args):
+        lock, log = _LOGS[self.fam_id]
+        with lock:
+            log.append((self.j, args))
+        return (Marker(self.j),) + args
+
+
+class PlainFn(FamFn):
+    def __call__(self, *args):
+        return self._log(args)
+
+
+class CtxFn(FamFn):
+    def __call__(self, context=_NA, *args):      # total, so that a static (f,) evaluated by dask does not raise
+        return self._log(((context,) if context is not _NA else ()) + args)
+
+
+class Ctx2Fn(FamFn):
+    # 'context' is the SECOND parameter: insert_context must leave this one alone
+    def __call__(self, first=_NA, context=_NA, *args):
+        return self._log(tuple(a for a in (first, context) if a is not _NA) + args)
+
+
 class Family:
     def __init__(self, fns):
+        self.fam_id = next(_FAM_IDS)
         self.log = []
         self.lock = threading.Lock()
+        _LOGS[self.fam_id] = (self.lock, self.log)
         self.funcs = []
         self.index = {}
         for j, f in enumerate(fns, 1):
-            fn = self._make(j, 'ctx' if f['ctx'] else ('ctx2' if f.get('ctx2') else 'plain'))
+            cls = CtxFn if f['ctx'] else (Ctx2Fn if f.get('ctx2') else PlainFn)
+            fn = cls(self.fam_id, j)
             self.funcs.append(fn)
             self.index[fn] = j
 
-    def _make(self, j, kind):
-        fam = self
-        if kind == 'ctx':
-            def f(context=_NA, *args):      # total, so that a static (f,) evaluated by dask does not raise
-                args = ((context,) if context is not _NA else ()) + args
-                with fam.lock:
-                    fam.log.append((j, args))
-                return (Marker(j),) + args
-        elif kind == 'ctx2':
-            # 'context' is the SECOND parameter: insert_context must leave this one alone
-            def f(first=_NA, context=_NA, *args):
-                args = tuple(a for a in (first, context) if a is not _NA) + args
-                with fam.lock:
-                    fam.log.append((j, args))
-                return (Marker(j),) + args
-        else:
-            def f(*args):
-                with fam.lock:
-                    fam.log.append((j, args))
-                return (Marker(j),) + args
-        f.__name__ = f'fam{j}'
-        return f
+    def close(self):
+        _LOGS.pop(self.fam_id, None)
 
 
 class Exporter:
@@ -377,29 +446,52 @@ def impl(modname=None):
     return d
 
 
+_traced = {}
+
+
+def trace_replace(Task):
+    """Instrument Task.replace from the harness side: a replacement object remembers which of the user's task
+    objects it descends from (names cannot do that: two distinct tasks may have the same name, function, inputs)."""
+    if Task in _traced:
+        return
+    orig = Task.replace
+
+    def replace(self, **kwargs):
+        new = orig(self, **kwargs)
+        new.__dict__['_c17_tid'] = self.__dict__.get('_c17_tid')
+        return new
+    Task.replace = replace
+    _traced[Task] = orig
+
+
+def tid_of(n):
+    return n.__dict__['_c17_tid']
+
+
 def observe_graph(P, w, table, ex):
-    name2tid = {t.name: i + 1 for i, t in enumerate(table)}
     nodes = w.tasks
     position = {id(n): k for k, n in enumerate(nodes)}
     out = []
     for n in nodes:
-        i = name2tid[n.name]
+        i = tid_of(n)
         out.append(ct.tup(ct.pos(i), ct.boolean(n is not table[i - 1]), ex.svals(n.task_input),
                           ct.lst([ct.nat(position[id(s)]) for s in w.get_successors(n)]),
                           ct.lst([ct.nat(position[id(p)]) for p in w.get_predecessors(n)])))
-    return ct.lst(out), name2tid
+    return ct.lst(out)
 
 
 def run_impl(spec, modname=None, perturb=None):
     """Run the real code on a spec; returns (coq case term, info)."""
     P = impl(modname)
     Task, Workflow, WorkflowBuilder = P['Task'], P['Workflow'], P['WorkflowBuilder']
+    trace_replace(Task)
     fam = Family(spec['fns'])
     context = P['NullContext']('c17')
     ex = Exporter(fam, context)
     table = []
     for i, t in enumerate(spec['tasks']):
-        table.append(Task(f't{i}', fam.funcs[t['fn'] - 1], *[static_value(s, fam) for s in t['inputs']]))
+        table.append(Task(t.get('name', f't{i}'), fam.funcs[t['fn'] - 1], *[static_value(s, fam) for s in t['inputs']]))
+        table[-1].__dict__['_c17_tid'] = i + 1
     builders = [WorkflowBuilder(name='c17') for _ in range(spec['nb'])]
     errs = []
     for i, op in enumerate(spec['ops']):
@@ -436,11 +528,11 @@ def run_impl(spec, modname=None, perturb=None):
         except ValueError:
             errs.append(i)
     wb = builders[0]
-    o_builder, name2tid = observe_graph(P, wb, table, ex)
+    o_builder = observe_graph(P, wb, table, ex)
     wf = Workflow(wb)
-    o_wf, _ = observe_graph(P, wf, table, ex)
-    ins = [name2tid[t.name] for t in wf.input_tasks]
-    outs = [name2tid[t.name] for t in wf.output_tasks]
+    o_wf = observe_graph(P, wf, table, ex)
+    ins = [tid_of(t) for t in wf.input_tasks]
+    outs = [tid_of(t) for t in wf.output_tasks]
     disp = RecDispatcher(P['local_dask'].run)
     fam.log.clear()
     with P['threaded']():
@@ -461,7 +553,7 @@ def run_impl(spec, modname=None, perturb=None):
             result = 'ROther'
     log = list(fam.log)
     prep = disp.wf if disp.wf is not None else wf
-    o_prep, _ = observe_graph(P, prep, table, ex)
+    o_prep = observe_graph(P, prep, table, ex)
     try:
         d = prep.as_dask_dict()
     except ValueError:
@@ -505,7 +597,9 @@ def run_impl(spec, modname=None, perturb=None):
     info = {'n': len(wf), 'edges': sum(len(wf.get_successors(t)) for t in wf.tasks), 'result': rkind,
             'errs': len(errs), 'ncalls': len(log),
             'maxpreds': max([len(wf.get_predecessors(t)) for t in wf.tasks] or [0]),
-            'ctx_tasks': sum(1 for t in wf.tasks if spec['fns'][spec['tasks'][name2tid[t.name] - 1]['fn'] - 1]['ctx'])}
+            'ctx_tasks': sum(1 for t in wf.tasks if spec['fns'][spec['tasks'][tid_of(t) - 1]['fn'] - 1]['ctx']),
+            'twins': len(spec['tasks']) - len({(t.get('name', i), t['fn'], json.dumps(t['inputs'])) for i, t in enumerate(spec['tasks'])})}
+    fam.close()
     return term, info
 
 
@@ -646,7 +740,8 @@ def run(ctx):
         'random WorkflowBuilder operation sequences (add_task with list / single / no predecessors, replace_task by a '
         'new or an existing task, insert_workflow of builders and Workflows with and without predecessors, builder + and Workflow +, '
         'WorkflowBuilder(Workflow(.)), insert_context, closing add_task on output_tasks, output task entered early or last) over 1-12 tasks of a pure '
-        'call-logging function family with and without a context parameter and static inputs (strings, ints, None, '
+        'call-logging function family with and without a context parameter, twin tasks (distinct objects equal in name, '
+        'function and static inputs, with different or identical predecessors) and static inputs (strings, ints, None, '
         'tuples, lists, dicts, callables; a small stream with key-like strings and callable-headed tuples, cycles and '
         'multi-sink graphs), executed with the real execute_workflow + threaded local_dask dispatcher; from VERIF_SEED; '
         'thorough adds every forward-edge DAG on <= 5 tasks; non-trivial = at least 3 tasks and 2 edges; distinct by spec text')
@@ -657,6 +752,7 @@ def run(ctx):
         'tasks_hist': hist('n'), 'max_predecessors_hist': hist('maxpreds'), 'result_kind': hist('result'),
         'ops_raising_ValueError': sum(i['errs'] for i in infos),
         'with_context_tasks': sum(1 for i in infos if i['ctx_tasks'] > 0),
+        'with_twin_tasks': sum(1 for i in infos if i['twins'] > 0),
         'guard_static_nokey_false': sum(1 for v in verdicts if 201 in v),
         'guard_static_nocall_false': sum(1 for v in verdicts if 202 in v),
         'context_predecessor_before_plain_one': sum(1 for v in verdicts if 203 in v),
